@@ -115,6 +115,25 @@ struct Poly1305 {
             if (fill == 16) { block(buf, 1); fill = 0; }
         }
     }
+    // the accumulator as a canonical residue mod 2^130-5 (after absorbing a pending partial block), without the final "+ s"
+    void canonical_acc(uint64_t out[5]) {
+        if (fill) {
+            unsigned char last[16] = {0};
+            memcpy(last, buf, fill);
+            last[fill] = 1;
+            block(last, 0);
+            fill = 0;
+        }
+        uint64_t c = 0;
+        for (int round = 0; round < 2; round++) {
+            for (int i = 0; i < 5; i++) { h[i] += c; c = h[i] >> 26; h[i] &= 0x3ffffff; }
+            h[0] += c * 5; c = 0;
+        }
+        c = h[0] >> 26; h[0] &= 0x3ffffff; h[1] += c;
+        uint64_t g[5]; uint64_t carry = 5;
+        for (int i = 0; i < 5; i++) { g[i] = h[i] + carry; carry = g[i] >> 26; g[i] &= 0x3ffffff; }
+        for (int i = 0; i < 5; i++) out[i] = carry ? g[i] : h[i];
+    }
     void final(unsigned char mac[16]) {
         if (fill) {
             unsigned char last[16] = {0};
@@ -180,6 +199,106 @@ static inline void stream_mac(unsigned char mac[16], const StreamState &st, cons
     v = 64 + (uint64_t) mlen; for (int i = 0; i < 8; i++) { sl[i] = (unsigned char) v; v >>= 8; }
     p.update(sl, 8);
     p.final(mac);
+}
+// ---- arithmetic mod p = 2^130 - 5 on canonical 5 x 26-bit limbs (used to craft messages whose Poly1305 accumulator lands
+// in the narrow band [p, 2^130) just before the final reduction) ----
+struct F130 { uint64_t l[5]; };
+static inline F130 f_small(uint64_t v) { F130 a; a.l[0] = v; a.l[1] = a.l[2] = a.l[3] = a.l[4] = 0; return a; }
+static inline F130 f_canon(F130 a) {
+    uint64_t c = 0;
+    for (int round = 0; round < 2; round++) {
+        for (int i = 0; i < 5; i++) { a.l[i] += c; c = a.l[i] >> 26; a.l[i] &= 0x3ffffff; }
+        a.l[0] += c * 5; c = 0;
+    }
+    c = a.l[0] >> 26; a.l[0] &= 0x3ffffff; a.l[1] += c;
+    uint64_t g[5], carry = 5;
+    for (int i = 0; i < 5; i++) { g[i] = a.l[i] + carry; carry = g[i] >> 26; g[i] &= 0x3ffffff; }
+    if (carry) for (int i = 0; i < 5; i++) a.l[i] = g[i];
+    return a;
+}
+static inline F130 f_mul(const F130 &a, const F130 &b) {
+    F130 d;
+    for (int i = 0; i < 5; i++) {
+        unsigned __int128 acc = 0;
+        for (int j = 0; j < 5; j++) { int k = i - j; uint64_t bv = k >= 0 ? b.l[k] : 5 * b.l[k + 5]; acc += (unsigned __int128) a.l[j] * bv; }
+        d.l[i] = (uint64_t) acc;
+    }
+    return f_canon(d);
+}
+static inline F130 f_add(const F130 &a, const F130 &b) { F130 d; for (int i = 0; i < 5; i++) d.l[i] = a.l[i] + b.l[i]; return f_canon(d); }
+static inline F130 f_sub(const F130 &a, const F130 &b) {
+    // a - b = a + (p - b); p in limbs: 0x3fffffb, 0x3ffffff x 4
+    static const uint64_t P[5] = {0x3fffffb, 0x3ffffff, 0x3ffffff, 0x3ffffff, 0x3ffffff};
+    F130 d; for (int i = 0; i < 5; i++) d.l[i] = a.l[i] + P[i] - b.l[i];
+    return f_canon(d);
+}
+static inline F130 f_inv(const F130 &a) { // a^(p-2), p-2 = 2^130 - 7
+    F130 result = f_small(1), base = a;
+    // exponent bits of 2^130-7: low three bits 001 (…11111001), all other 127 bits set
+    for (int bit = 0; bit < 130; bit++) {
+        bool set = bit == 0 || bit >= 3;
+        if (set) result = f_mul(result, base);
+        base = f_mul(base, base);
+    }
+    return result;
+}
+static inline bool f_below_2_128(const F130 &a) { return a.l[4] < ((uint64_t) 1 << 24); }
+static inline void f_to_bytes16(const F130 &a, unsigned char out[16]) {
+    unsigned __int128 v = (unsigned __int128) a.l[0] + ((unsigned __int128) a.l[1] << 26) + ((unsigned __int128) a.l[2] << 52) + ((unsigned __int128) a.l[3] << 78) + ((unsigned __int128) a.l[4] << 104);
+    for (int i = 0; i < 16; i++) { out[i] = (unsigned char) v; v >>= 8; }
+}
+// the MAC computation of one chunk, stopped before the final reduction: the accumulator as a canonical residue
+static inline F130 stream_mac_acc(const StreamState &st, const unsigned char encblock[64], const unsigned char *c, size_t mlen, const unsigned char *ad, size_t adlen) {
+    unsigned char b0[64];
+    chacha20_block(b0, st.k, 0, st.nonce);
+    Poly1305 p(b0);
+    static const unsigned char zero[16] = {0};
+    p.update(ad, adlen);
+    p.update(zero, (16 - adlen) & 15);
+    p.update(encblock, 64);
+    p.update(c, mlen);
+    p.update(zero, (size_t) ((16 - 64 + mlen) & 15));
+    unsigned char sl[8];
+    uint64_t v = adlen; for (int i = 0; i < 8; i++) { sl[i] = (unsigned char) v; v >>= 8; }
+    p.update(sl, 8);
+    v = 64 + (uint64_t) mlen; for (int i = 0; i < 8; i++) { sl[i] = (unsigned char) v; v >>= 8; }
+    p.update(sl, 8);
+    F130 a; p.canonical_acc(a.l);
+    return a;
+}
+// Replaces the first 16 bytes of m (mlen >= 16) so that the chunk's Poly1305 accumulator is congruent to v in 0..4 mod p,
+// i.e. sits in [p, 2^130) before the final conditional subtraction.  Returns v, or -1 if no v in 0..4 has a solution below 2^128.
+static inline int craft_poly_edge(const StreamState &st, unsigned char *m, size_t mlen, const unsigned char *ad, size_t adlen, unsigned char tag) {
+    if (mlen < 16) return -1;
+    unsigned char blk[64] = {0};
+    blk[0] = tag;
+    chacha20_ietf_xor(blk, blk, 64, st.k, 1, st.nonce);
+    Bytes c(mlen);
+    chacha20_ietf_xor(c.data(), m, mlen, st.k, 2, st.nonce);
+    unsigned char ks[16];
+    for (int i = 0; i < 16; i++) ks[i] = (unsigned char) (c[(size_t) i] ^ m[i]);
+    Bytes c0 = c, c1 = c;
+    memset(c0.data(), 0, 16); memset(c1.data(), 0, 16); c1[0] = 1;
+    F130 H0 = stream_mac_acc(st, blk, c0.data(), mlen, ad, adlen), H1 = stream_mac_acc(st, blk, c1.data(), mlen, ad, adlen);
+    F130 re = f_sub(H1, H0);                      // r^e: the weight of the first ciphertext block
+    F130 two128 = f_small(0); two128.l[4] = (uint64_t) 1 << 24;
+    F130 inv = f_inv(re);
+    for (unsigned v = 0; v < 5; v++) {
+        // H(x) = H0 + x * re  (x = value of the 16 ciphertext bytes; the 2^128 pad bit is already inside H0)
+        F130 x = f_mul(f_sub(f_small(v), H0), inv);
+        if (!f_below_2_128(x)) continue;
+        unsigned char xb[16];
+        f_to_bytes16(x, xb);
+        for (int i = 0; i < 16; i++) m[i] = (unsigned char) (xb[i] ^ ks[i]);
+        // self-check
+        Bytes cc(mlen);
+        chacha20_ietf_xor(cc.data(), m, mlen, st.k, 2, st.nonce);
+        F130 H = stream_mac_acc(st, blk, cc.data(), mlen, ad, adlen);
+        if (H.l[0] == v && !H.l[1] && !H.l[2] && !H.l[3] && !H.l[4]) return (int) v;
+        return -2; // arithmetic slip in the harness
+    }
+    (void) two128;
+    return -1;
 }
 static inline void stream_advance(StreamState &st, const unsigned char mac[16], unsigned char tag) {
     for (int i = 0; i < 8; i++) st.nonce[4 + i] ^= mac[i];
